@@ -209,6 +209,14 @@ class Play:
     def run_threads(self):
         """Every step is issued from a fresh thread that has no event loop."""
         self.construct()
+        if self.is_async and self.explicit_activate:
+            box = {}
+            t = threading.Thread(target=lambda: box.update(obs=self._obs(lambda: self.sm.activate_initial_state())))
+            t.start()
+            t.join(30)
+            if t.is_alive():
+                raise HarnessError("driver thread did not finish")
+            self.check_round(box["obs"], lambda: self.interp.activate(), "activate_initial_state()", ignore_result=True)
         for i, step in enumerate(self.case["history"]):
             self.set_val(step.get("val", {}))
             self.set_fault(self.case.get("faults", {}).get(str(i)))
